@@ -1,0 +1,5 @@
+//go:build !verif
+
+package sm2
+
+func verifGate(string) {}
